@@ -207,6 +207,17 @@ def applyOp (st : NState) : NodeOp → Out
   | .setMaxApplyUnpersistedLogLimit x => .ok (.ok, { st with raft := st.raft.setMaxApplyUnpersistedLogLimit x })
   | .setMaxCommittedSizePerReady x => .ok (.ok, { st with raft := st.raft.setMaxCommittedSizePerReady x })
 
+/-- `RawNode::on_entries_fetched` raw_node.rs:433 for a context `GetEntriesFor::SendAppend { to, term, aggressively }`
+(the asynchronous log fetch: `Storage::entries` answered `LogTemporarilyUnavailable` for a `send_append`, the application
+fetched the entries and calls back).  A stale context — term or role changed, peer removed — is ignored.  Executed by the
+driver next to the `NodeOp`s; it is not (yet) a constructor of `NodeOp`, so the ClusterSem theorems do not cover
+applications that use the asynchronous fetch. -/
+def onEntriesFetched (st : NState) (to term : Nat) (aggressively : Bool) : Out :=
+  let r := st.raft
+  if r.term ≠ term ∨ r.state ≠ .leader then .ok (.ok, st)
+  else if (r.prs.get to).isNone then .ok (.ok, st)
+  else okRes st (if aggressively then r.sendAppendAggressively to else r.sendAppend to)
+
 /-- a call with the random draw the implementation used for it (`reset_randomized_election_timeout`) -/
 def call (st : NState) (rnd : Option Nat) (op : NodeOp) : Out :=
   applyOp { st with raft := { st.raft with nextRand := rnd } } op
